@@ -921,7 +921,7 @@ func randHook(r *rand.Rand) hookAns {
 	case 0:
 		return hookAns{"allow", 0, ""}
 	case 1:
-		return hookAns{"deny", []int{550, 551, 5, 999, 421}[r.Intn(5)], []string{"go away", "Denied by policy!", "", "x y  z"}[r.Intn(4)]}
+		return hookAns{"deny", []int{550, 551, 5, 999, 421}[r.Intn(5)], []string{"go away", "Denied by policy!", "", "x y  z", "mailbox is at 100% of its quota", "%s %d %v%%", "50%"}[r.Intn(7)]}
 	}
 	return hookAns{"defer", 0, ""}
 }
